@@ -40,6 +40,15 @@ def trace_ops(rng, tier):
         ops.append({"op": "load", "image": [251, t, 19] + [2] * 36 + [1], "ss": 16, "ps": ps})
         ops.append({"op": "edge", "n": 130})
         ops += post_halt(rng)
+    # STOP fetched while interrupts are enabled and the key is pressed around the fetch: every press time, per edge
+    p3 = json.load(open(os.path.join(vlib.VERIF, "programs", "progint3.json")))
+    for t in range(40, 95):
+        ops.append({"op": "load", "image": p3, "ss": 16, "ps": 255})
+        ops.append({"op": "edge", "n": t})
+        ops.append({"op": "key_int"})
+        ops.append({"op": "edge", "n": 60})
+        ops.append({"op": "continue"})
+        ops.append({"op": "edge", "n": 40})
     # random code with every stack size
     for i in range(6 if tier == "quick" else 40):
         img = ic.random_image(rng, biased=True, n=rng.choice([60, 120]))
